@@ -237,6 +237,10 @@ func C18(c *runner.Cfg) *report.Result {
 				default:
 				}
 				call := drawCall(gr, callID.Add(1))
+				if call.id%3 == 0 {
+					// client streams keep the server's pooled call state busy across several receive blocks
+					call.behaviour, call.k = bClientStream, 6+int(call.id%5)
+				}
 				v, _ := doCall(noCtx, rcl, call, false)
 				if v != "" {
 					res.Violate("c18:rpc:"+behaviourNames[call.behaviour]+":"+normText(v), fmt.Sprintf("rpc call %d (%s) under concurrent pool use: %s", call.id, behaviourNames[call.behaviour], v), map[string]any{"call_id": call.id})
